@@ -122,7 +122,13 @@ def build(repo=None):
         eng.method_models["is_dataclass"] = lambda e, s, recv, a, kw, nd: [(s, mkbool(is_dc))]
         eng.method_models["isgeneratorfunction"] = lambda e, s, recv, a, kw, nd: [(s, mkbool(gen))]
         eng.method_models["isasyncgenfunction"] = lambda e, s, recv, a, kw, nd: [(s, mkbool(False))]
-        eng.method_models["signature"] = lambda e, s, recv, a, kw, nd: [(s, Opaque("signature", attrs={"parameters": Opaque("parameters"), "return_annotation": Opaque("ret-annotation")}))]
+        def m_signature(e, s, recv, a, kw, nd):
+            s1_ = s.clone()
+            s1_.ghost["signature_calls"] = s1_.ghost.get("signature_calls", []) + [(tuple(a), dict(kw))]
+            return [(s1_, Opaque("signature", attrs={"parameters": Opaque("parameters"), "return_annotation": Opaque("ret-annotation")}))]
+
+        eng.method_models["signature"] = m_signature
+        eng.method_models["__listcomp__"] = lambda e, s, node: [(s, Opaque("list-built-by-a-comprehension"))]
         eng.method_models["replace"] = lambda e, s, recv, a, kw, nd: [(s, Opaque("signature'", attrs={"parameters": Opaque("parameters"), "return_annotation": Opaque("ret-annotation")}))]
         eng.method_models["items"] = lambda e, s, recv, a, kw, nd: [(s, Opaque("items"))] if isinstance(recv, Opaque) else None
         eng.method_models["get"] = lambda e, s, recv, a, kw, nd: [(s, Opaque("got"))] if isinstance(recv, Opaque) else None
@@ -226,7 +232,13 @@ def build(repo=None):
                 w = s1.get(v) if isinstance(v, Ref) else None
                 good = w is not None and w.cls == "wrapped-function" and w.attrs["__wrapped__"] is fnv and isinstance(w.attrs["inner"], Fn) and w.attrs["inner"].name == "wrapped_fn"
                 eng.oblige(s1, "C07:function-is-replaced-by-functools.wraps(fn)(wrapped_fn)", z3.BoolVal(bool(good)))
+                # what the wrapper shows to introspection is what functools.wraps copied and nothing else: inspect.signature(wrapper) follows
+                # __wrapped__ to the user's own signature (an own __signature__ / __annotations__ would replace it by a processed copy)
+                eng.oblige(s1, "C07:the-wrapper-gets-no-attribute-of-its-own-besides-what-functools.wraps-sets(signature-and-metadata-stay-the-function's)", z3.BoolVal(w is not None and set(w.attrs) == {"__wrapped__", "inner"}))
                 if tc_given:
+                    sg = [c_ for c_ in s1.ghost.get("signature_calls", [])]
+                    eng.oblige(s1, "C07:the-signature-is-taken-from-the-function-with-inspect.signature(fn)(defaults:-wrapped-functions-are-followed)",
+                               z3.BoolVal(len(sg) >= 1 and all(len(a_) == 1 and a_[0] is fnv and not kw_ for a_, kw_ in sg)))
                     ok_made = len(made) == 2 and all(len(a) >= 4 for a, kw, r in made)
                     eng.oblige(s1, "C07:two-synthetic-functions-are-made(full-signature-with-output, parameters-only)", z3.BoolVal(ok_made))
                     if ok_made:
@@ -245,6 +257,8 @@ def build(repo=None):
             ob["serves"] = [c[:3]] if c[:3] in ("C05", "C07", "C19") else ["C07"]
             if c.startswith("C19"):
                 ob["serves"] = ["C19", "C07"]
+            if "the-signature-is-taken-from-the-function" in c:
+                ob["serves"] = ["C07", "C02"]  # no parameter annotation reaches the checker if the wrapper's own (*args, **kwargs) signature is read
             if "function-is-replaced-by-functools.wraps" in c or "dataclass-__init__-is-replaced" in c:
                 # every decorated callable gets the wrapper that opens its own context and runs the checks (C05, C02, C13 depend on it)
                 ob["serves"] = ["C07", "C05", "C02", "C13", "C19"]
